@@ -566,7 +566,7 @@ def in_result_position(b, c):
     return True
 
 
-@RULES.rule("R7.4", "the driver re-queues every dependant on every Changed until the worklist is empty", floor=10)
+@RULES.rule("R7.4", "the driver re-queues every dependant on every Changed until the worklist is empty", floor=12)
 def r7_4(rep):
     prog = rep.prog
     b = rep.need(prog.fn("ir::analysis::analyze"), "fn analyze")
@@ -576,8 +576,17 @@ def r7_4(rep):
     cond = strip(w.get("cond", {}))
     popok = cond.get("k") == "LetCond" and "Some" in str(pat_variants(cond["pat"])) and strip(cond["init"]).get("name") == "pop"
     rep.check(popok, "loop-until-empty", "`while let Some(node) = worklist.pop()`", b.loc(w))
+    # the only way out of the loop is the empty worklist: a work budget / early `break` leaves nodes unprocessed (and which ones
+    # depends on declaration order, because the worklist is a stack seeded in item order)
+    exits = [n for n in b.walk(w["body"]) if n["k"] in ("Break", "Ret") and not any(a["k"] == "Closure" and a["_i"] > w["_i"] for a in b.ancestors(n))]
+    rep.check(not exits, "loop-no-other-exit", "the worklist loop has no `break` / `return`" if not exits else
+              "the worklist loop can stop before the worklist is empty: the result is then not a fixed point", b.loc(exits[0]) if exits else b.loc(w))
     cons = [c for c in b.calls(lambda n: n["k"] == "MCall" and n["name"] == "constrain")]
     edo = [c for c in b.calls(lambda n: n["k"] == "MCall" and n["name"] == "each_depending_on")]
+    if cons:
+        extra_c = [g for g in b.guards(cons[0]) if g not in b.guards(w["body"]) and g[1] in ("cond", "arm")]
+        rep.check(not extra_c, "constrain-every-popped-node", "every popped node is constrained" if not extra_c else
+                  "`constrain` is skipped for some popped nodes", b.loc(cons[0]))
     rep.check(len(cons) == 1 and len(edo) == 1, "single-constrain-and-requeue", "one constrain and one each_depending_on call", b.loc(w))
     if cons and edo:
         guarded = False
@@ -611,7 +620,8 @@ def r7_4(rep):
         ok = False
         for f in fors:
             src = e.canon(f["iter"])
-            calls_f = [c for c in e.calls(lambda n: n["k"] == "Call" and "f" in n and strip(n["f"]).get("name") == "f", f["body"])]
+            cb_ids = {prm.get("id") for prm in e.params[-1:]}
+            calls_f = [c for c in e.calls(lambda n: n["k"] == "Call" and "f" in n and strip(n["f"]).get("k") == "Local" and strip(n["f"])["id"] in cb_ids, f["body"])]
             exits = [n for n in e.walk(f["body"]) if n["k"] in ("Break", "Ret", "Continue")]
             if "::dependencies" in src and "::get(" in src and calls_f and not exits and \
                     not [g for g in e.guards(calls_f[0]) if g not in e.guards(f)] and \
